@@ -115,6 +115,7 @@ PROPS = {
             dict(name="TestReplaySQLite", quick=500, thorough=15000, shards_thorough=8, shrinktime="15s"),
             dict(name="TestReplayDurable", quick=1500, thorough=60000, shards_thorough=4, shrinktime="15s"),
             dict(name="TestEnumSmall", quick=1, thorough=1, shards_quick=4, shards_thorough=16, rapid=False),
+            dict(name="TestReplayWhileAppending", quick=300, thorough=12000, shards_thorough=8, shrinktime="5s"),
             dict(name="TestKnownProbes", quick=1, thorough=1, shards_thorough=1, rapid=False),
         ],
     ),
@@ -181,6 +182,7 @@ PROPS = {
             dict(name="TestRawGraph", quick=4000, thorough=400000, shards_thorough=10),
             dict(name="TestTypedChain", quick=3000, thorough=300000, shards_thorough=6),
             dict(name="TestConcurrentReplays", quick=3000, thorough=200000, shards_thorough=8, shrinktime="5s"),
+            dict(name="TestLongChain", quick=600, thorough=30000, shards_thorough=4),
             dict(name="TestClearDuringChain", quick=800, thorough=40000, shards_thorough=8, shrinktime="5s"),
             dict(name="FuzzGraph", quick=0, thorough=120, shards_thorough=1, fuzz=True, rapid=False, fuzz_workers=8),
         ],
